@@ -192,3 +192,43 @@ _more('C18', 'Three runs in ten start with application trace / profile '
 _more('C19', 'A quarter of the random histories have a test that runs the '
       'test runner itself (in-process, output captured) after starting its '
       'threads.')
+
+# ---- added with round 11 (fifth session)
+_more('C01', 'A tenth of the worlds have two different base layer objects '
+      'that carry one name (twin instance layers) under two differently '
+      'named test layers; 18 % of the cases add options of other features '
+      'that wrap the run (--coverage, --gc / -G, --profile); a '
+      'NotImplementedError out of a layer setUp is one of the faults. The '
+      'quick tier draws 100 worlds, the two multiple-inheritance families '
+      'in 40 % of them.')
+_more('C02', 'NotImplementedError out of a layer setUp is an error like any '
+      'other (only out of tearDown it means "cannot be torn down").')
+_more('C04', 'Faulty tests that go wrong in the first --repeat iteration '
+      'only; NotImplementedError out of a layer setUp.')
+_more('C05', '6 % of the tests run the test runner themselves (in-process, '
+      'a tree without layers): the per-test hooks of the outer stack must '
+      'not be touched by the inner run.')
+_more('C06', '10 / 120 runs with a layer whose subprocess cannot be started '
+      '(not the last one): the blocks of the other layers are printed all '
+      'the same, complete and in order.')
+_more('C07', 'Half of the big-volume cases add one transient read error '
+      'while the parent drains the child.')
+_more('C08', 'End-to-end runs use exotic layer names (names that differ only '
+      'where one has a dot) in four graphs out of ten and put the layers '
+      'into subprocesses in a quarter of the runs.')
+_more('C09', 'A sixth of the real runs hand the layers to subprocesses (-j '
+      'N, resumed).')
+_more('C10', 'A layer that can neither be set up nor be torn down; a layer '
+      'handed to a subprocess must not have been begun by the process that '
+      'hands it over.')
+_more('C11', 'The seed in the defaults of the script and --shuffle on the '
+      'command line (and the other way round).')
+_more('C13', 'Buffered tests that run a buffered inner run of the test '
+      'runner after what they wrote.')
+_more('C18', 'A 17th ending: runs that only list the tests.')
+_more('C19', 'Thread objects that are false (a worker that is also a '
+      'container).')
+_more('C20', 'add_nodes() calls that name nodes which are known already.')
+_more('C03', 'Not covered yet: layers declared as dotted-name strings that go '
+      'through a re-exporting module (a seeded change of round 11 that '
+      'breaks C03 only there is still missed).')
